@@ -321,9 +321,27 @@ func check(propID, tier string) int {
 		// replay twice in fresh processes: both must fail identically
 		r1 := ev.eval(min)
 		r2 := ev.eval(min)
+		flaky := ""
 		if r1.class != class || r2.class != class || (r1.rec != nil && r2.rec != nil && r1.rec.LogHash != r2.rec.LogHash) {
-			hard = append(hard, fmt.Sprintf("class %s: minimised plan does not replay identically (got %q and %q)", class, r1.class, r2.class))
-			continue
+			// The code under test may itself be nondeterministic (a sync.Pool, state kept between
+			// calls): fall back to the plan as found and accept a replay that shows *a* violation of
+			// this property; only a report that no replay reproduces at all is withheld (exit 2).
+			got := 0
+			var last evalResult
+			for i := 0; i < 4; i++ {
+				r := ev.eval(plan)
+				if r.class != "" && !r.hard {
+					got++
+					last = r
+				}
+			}
+			if got == 0 {
+				hard = append(hard, fmt.Sprintf("class %s: no replay of the failing run reproduces any violation (minimised: %q, %q)", class, r1.class, r2.class))
+				continue
+			}
+			min = plan
+			r1 = last
+			flaky = fmt.Sprintf("the violation depends on state outside the run plan (the code under test is not a function of its inputs): %d of 4 replays of the plan as found showed a violation; class on replay %s", got, last.class)
 		}
 		min.Expect = &core.Expect{Class: class}
 		if r1.rec != nil {
@@ -331,6 +349,9 @@ func check(propID, tier string) int {
 			min.Rendered = r1.rec.Sample
 			f.rendered = r1.rec.Sample
 			f.detail = r1.detail
+		}
+		if flaky != "" {
+			f.detail = flaky + "\n" + f.detail
 		}
 		name := fmt.Sprintf("%s-%s-%s.json", propID, tier, core.HashStr(class)[:10])
 		path := filepath.Join(outDir, "replays", name)
@@ -438,6 +459,8 @@ func check(propID, tier string) int {
 	}
 	if exit != 2 {
 		writeEvidence(propID, ev)
+		// keep the latest evidence of each tier as well (the main file is rewritten by every run)
+		writeEvidence(propID+"."+tier, ev)
 	}
 	fmt.Printf("verif: %s %s: %d runs, %d distinct non-trivial cases, %d steps simulated, %d violation class(es), %.1fs\n", propID, tier, b.runs, len(b.distinct), b.steps, nViol, wallS)
 	return exit
